@@ -163,6 +163,62 @@ theorem swap_natural (f g : Tensor R) (hf : f.WF) (hg : g.WF) :
         by_cases e1 : a = a' <;> by_cases e2 : c = c' <;> simp [e1, e2]; ring
   rw [hl, hr]
 
+/-! ### associativity, identities of tensor products (the remaining strict-monoidal laws) -/
+
+theorem then_assoc (f g h : Tensor R) (hf : f.WF) (hg : g.WF) (hh : h.WF)
+    (h1 : f.cod = g.dom) (h2 : g.cod = h.dom) :
+    thenCore (thenCore f g) h = thenCore f (thenCore g h) := by
+  apply ext_entry (thenCore_wf _ _ (thenCore_wf f g hf hg h1) hh h2)
+    (thenCore_wf _ _ hf (thenCore_wf g h hg hh h2) h1) rfl rfl
+  intro x hx
+  obtain ⟨i, l, rfl, hi, hl⟩ := split2 hx
+  rw [then_entry _ _ (thenCore_wf f g hf hg h1) hh h2 hi hl,
+    then_entry _ _ hf (thenCore_wf g h hg hh h2) h1 hi hl]
+  simp only [thenCore_cod]
+  rw [sumOver_congr (g := fun k => sumOver f.cod (fun j => f.entry (i ++ j)
+      * (g.entry (j ++ k) * h.entry (k ++ l)))) (fun k hk => ?_)]
+  · rw [sumOver_comm]
+    apply sumOver_congr
+    intro j hj
+    rw [then_entry g h hg hh h2 (h1 ▸ hj) hl, ← sumOver_mul_left]
+  · rw [then_entry f g hf hg h1 hi hk, ← sumOver_mul_right]
+    apply sumOver_congr
+    intro j _
+    ring
+
+theorem tensor_assoc (f g h : Tensor R) (hf : f.WF) (hg : g.WF) (hh : h.WF) :
+    (f.tensor g).tensor h = f.tensor (g.tensor h) := by
+  apply ext_entry (tensor_wf _ _ (tensor_wf f g hf hg) hh) (tensor_wf _ _ hf (tensor_wf g h hg hh))
+    (by simp [List.append_assoc]) (by simp [List.append_assoc])
+  intro x hx
+  obtain ⟨ab, c, ab', c', rfl, hab, hc, hab', hc'⟩ := split4 hx
+  obtain ⟨a, b, rfl, ha, hb⟩ := split2 hab
+  obtain ⟨a', b', rfl, ha', hb'⟩ := split2 hab'
+  rw [tensor_entry _ _ (tensor_wf f g hf hg) hh (inRange_append ha hb) (inRange_append ha' hb') hc hc',
+    tensor_entry f g hf hg ha ha' hb hb']
+  have e : ((a ++ b) ++ c) ++ ((a' ++ b') ++ c') = (a ++ (b ++ c)) ++ (a' ++ (b' ++ c')) := by
+    simp [List.append_assoc]
+  rw [e, tensor_entry f _ hf (tensor_wf g h hg hh) ha ha' (inRange_append hb hc)
+    (inRange_append hb' hc'), tensor_entry g h hg hh hb hb' hc hc']
+  ring
+
+theorem id_tensor_id (a b : List Nat) :
+    (Tensor.id (R := R) a).tensor (Tensor.id b) = Tensor.id (a ++ b) := by
+  apply ext_entry (s := (Tensor.id (R := R) a).tensor (Tensor.id b)) (t := Tensor.id (a ++ b))
+    (tensor_wf _ _ (id_wf a) (id_wf b)) (id_wf (a ++ b)) (by simp) (by simp)
+  intro x hx
+  obtain ⟨i, j, i', j', rfl, hi, hj, hi', hj'⟩ := split4 hx
+  rw [tensor_entry _ _ (id_wf a) (id_wf b) hi hi' hj hj', id_entry a hi hi', id_entry b hj hj',
+    id_entry (a ++ b) (inRange_append hi hj) (inRange_append hi' hj')]
+  have hi0 : InRange a i := hi
+  have hi0' : InRange a i' := hi'
+  have : i ++ j = i' ++ j' ↔ i = i' ∧ j = j' := by
+    constructor
+    · intro h
+      exact List.append_inj h (by rw [hi0.length_eq, hi0'.length_eq])
+    · rintro ⟨rfl, rfl⟩; rfl
+  by_cases e1 : i = i' <;> by_cases e2 : j = j' <;> simp [this, e1, e2]
+
 end semiring
 
 /-! ### dagger -/
